@@ -10,12 +10,15 @@
  *   S                                        log the Setup event
  *   fillboxes op r g b a n (x1 y1 x2 y2)*    pixman_image_fill_boxes on the image;
  *   fillrects op r g b a n (x y w h)*        pixman_image_fill_rectangles
- *        on the twin: pixman_image_composite32 (op, solid (colour), NULL, twin, box) per box   ("ref")
+ *        on the twin: pixman_image_composite32 (op, solid (colour), NULL, twin, box) per box   ("ref");
+ *        a box with a coordinate beyond +-30000: the whole image composited with the clip narrowed to the box
  * PIXMAN_DISABLE in the environment selects the implementation chain (pixman prints to stdout).
  */
 #include "frame_common.h"
 
 static fc_store_t dst, twin, rawsrc;
+static pixman_region32_t twin_clip;           /* the clip given to both twins (valid if twin_has_clip) */
+static int twin_has_clip;
 static fc_clipstate_t dclip, none;
 static int vals[4096];
 
@@ -24,6 +27,9 @@ reset_all (void)
 {
     fc_store_free (&dst);
     fc_store_free (&twin);
+    if (twin_has_clip)
+	pixman_region32_fini (&twin_clip);
+    twin_has_clip = 0;
     fc_store_free (&rawsrc);
     memset (&dclip, 0, sizeof dclip);
 }
@@ -113,6 +119,20 @@ main (int argc, char **argv)
 		fc_read_ints (in, vals, 4 * n);
 	    fc_set_clip (dst.img, &dclip, n, vals);
 	    fc_set_clip (twin.img, &tmp, n, vals);
+	    if (twin_has_clip)
+		pixman_region32_fini (&twin_clip);
+	    twin_has_clip = n >= 0;
+	    if (twin_has_clip)
+	    {
+		pixman_box32_t *b = malloc (sizeof (pixman_box32_t) * (n ? n : 1));
+		int i;
+		for (i = 0; i < n; i++)
+		{
+		    b[i].x1 = vals[4 * i]; b[i].y1 = vals[4 * i + 1]; b[i].x2 = vals[4 * i + 2]; b[i].y2 = vals[4 * i + 3];
+		}
+		pixman_region32_init_rects (&twin_clip, b, n);
+		free (b);
+	    }
 	}
 	else if (!strcmp (cmd, "S"))
 	{
@@ -137,10 +157,37 @@ main (int argc, char **argv)
 	    solid = pixman_image_create_solid_fill (&col);
 	    for (i = 0; i < n; i++)
 	    {
-		int x1 = vals[4 * i], y1 = vals[4 * i + 1], w, h;
-		if (api == 0) { w = vals[4 * i + 2] - x1; h = vals[4 * i + 3] - y1; }
-		else { x1 = (int16_t)x1; y1 = (int16_t)y1; w = (uint16_t)vals[4 * i + 2]; h = (uint16_t)vals[4 * i + 3]; }
-		pixman_image_composite32 (op, solid, NULL, twin.img, 0, 0, 0, 0, x1, y1, w, h);
+		/* the box as 64-bit corners */
+		long long x1 = vals[4 * i], y1 = vals[4 * i + 1], x2, y2;
+		if (api == 0) { x2 = vals[4 * i + 2]; y2 = vals[4 * i + 3]; }
+		else
+		{
+		    x1 = (int16_t)x1; y1 = (int16_t)y1;
+		    x2 = x1 + (uint16_t)vals[4 * i + 2]; y2 = y1 + (uint16_t)vals[4 * i + 3];
+		}
+#define NEAR(v) ((v) > -30000 && (v) < 30000)
+		if (NEAR (x1) && NEAR (y1) && NEAR (x2) && NEAR (y2))
+		{
+		    /* an ordinary request rectangle */
+		    pixman_image_composite32 (op, solid, NULL, twin.img, 0, 0, 0, 0, (int)x1, (int)y1,
+					      (int)(x2 - x1), (int)(y2 - y1));
+		}
+		else
+		{
+		    /* coordinates a composite request cannot carry: "the solid composited over the box within the
+		     * destination clip" = composite the whole image with the clip narrowed to the box */
+		    pixman_region32_t r;
+		    pixman_box32_t b;
+		    b.x1 = (int)x1; b.y1 = (int)y1;
+		    b.x2 = (int)(x2 > 2147483647LL ? 2147483647LL : x2); b.y2 = (int)(y2 > 2147483647LL ? 2147483647LL : y2);
+		    pixman_region32_init_rects (&r, &b, 1);          /* an empty / inverted box is an empty region */
+		    if (twin_has_clip)
+			pixman_region32_intersect (&r, &r, &twin_clip);
+		    pixman_image_set_clip_region32 (twin.img, &r);
+		    pixman_image_composite32 (op, solid, NULL, twin.img, 0, 0, 0, 0, 0, 0, twin.w, twin.h);
+		    pixman_image_set_clip_region32 (twin.img, twin_has_clip ? &twin_clip : NULL);
+		    pixman_region32_fini (&r);
+		}
 	    }
 	    pixman_image_unref (solid);
 	    vt_begin ("FillBoxes");
